@@ -10,11 +10,13 @@ from concurrent.futures import ThreadPoolExecutor
 VERIF = os.path.dirname(os.path.abspath(__file__))
 REPO = os.environ.get("VERIF_REPO", "/repo")
 CACHE = os.path.join(VERIF, ".cache")
+if REPO != "/repo":   # scratch copies (mutation self-tests) get their own cache root
+    CACHE = os.path.join(VERIF, ".cache", "alt-" + hashlib.sha256(REPO.encode()).hexdigest()[:8])
 GUARD = "LIBAST_VERIF"
 
 SAN = ("-fsanitize=address,undefined "
        "-fno-sanitize=signed-integer-overflow,nonnull-attribute,returns-nonnull-attribute,"
-       "function,vptr "
+       "function,vptr,pointer-overflow "
        "-fno-sanitize-recover=undefined")
 BASE_C = "-O1 -g -fno-omit-frame-pointer -fno-optimize-sibling-calls -w"
 
